@@ -59,5 +59,8 @@ Proof.
   intros a b b' P ND. unfold ObjEq.obj_eq. rewrite (Permutation_length P). f_equal.
   apply forallb_ext'. intros p. rewrite (get_perm b b' P ND). reflexivity.
 Qed.
+Theorem obj_eq_perm : forall a a' b b', Permutation a a' -> NoDup (map fst a) -> Permutation b b' -> NoDup (map fst b) ->
+  obj_eq a b = obj_eq a' b'.
+Proof. intros a a' b b' Pa Na Pb Nb. rewrite (obj_eq_perm_l a a' b Pa Na). exact (obj_eq_perm_r a' b b' Pb Nb). Qed.
 End More.
 Print Assumptions obj_eq_perm_l.
